@@ -171,7 +171,14 @@ fn bursts(case: &Case, bytes: &[u8], n: usize, rng: &mut Rng, ev: &mut Ev) {
 fn fast_path(ctx: &Ctx, shard: usize, n: usize, ev: &mut Ev) {
     let maxl = ctx.tier.pick(4200, 20_000);
     let mut rng = Rng::new(ctx.seed, 0xFA57 + shard as u64);
-    for l in 36..=maxl {
+    // plus lengths around 64 KiB, 1 MiB and 2 MiB (block-wise checksumming would have its seams there)
+    let mut lens: Vec<usize> = (36..=maxl).collect();
+    for &base in [1usize << 16, 1 << 20, 2 << 20].iter() {
+        for d in 0..12usize {
+            lens.push(base + d - 4);
+        }
+    }
+    for l in lens {
         if l % n != shard {
             continue;
         }
